@@ -518,7 +518,7 @@ Fixpoint auth_acts (nconn : nat) (acts : list sx) (s : state) (i ups : nat) (out
   | [] => Some (rev outs, ups)
   | SL (SA nm :: args) :: t =>
       let is x := String.eqb nm x in
-      if is "call" then          (* answered: Request, LiteServerGetTime, WaitMasterchainSeqno *)
+      if is "call" || is "sized" then   (* answered: Request (of any query size), LiteServerGetTime, WaitMasterchainSeqno *)
         match exec nconn qid s [LRegister i; LPick i] with
         | Some s1 =>
             match picked_conn (pc s1 i) with
